@@ -227,6 +227,54 @@ def random_cases(chk, binp, n, F, maxctx, tag):
     return mf, sf, broken, len(cases)
 
 
+def use_script_cases(chk, binp, n):
+    """Joining scripts shaped by the Universal Shaping Engine's Arabic-joining pass (N'Ko, Mandaic, Adlam, Manichaean,
+    Psalter Pahlavi, Hanifi Rohingya, Sogdian, Old Uyghur, Chorasmian; Syriac as a control): random sequences with
+    contexts through the PUBLIC API on a generated font per script (one private lookup per positional feature, and a
+    layout in which init and medi share a lookup), judged by the specification predicate of the model."""
+    out = rbv(binp, ["use-scripts", "--seed", str(chk.seed), "--n", str(n)], timeout=900)
+    F = "[%s; None]" % "; ".join("Some " + l.split()[2] for l in out.splitlines() if l.startswith("apifeat "))
+    cases, anomalies = [], []
+    for line in out.splitlines():
+        if line.startswith("use "):
+            head, rest = line[4:].split(" ; ", 1)
+            f = parse_semis(rest)
+            if len(f) != 7:
+                f += [[]] * (7 - len(f))
+            if f[6][:1] == ["panic"]:
+                anomalies.append(line[:400])
+                continue
+            script, shared, _k = head.split()
+            cases.append({"script": script, "shared": shared == "1", "pre": [int(x) for x in f[0]], "text": [int(x) for x in f[1]], "post": [int(x) for x in f[2]],
+                          "cp": [int(x) for x in f[3]], "ct": [int(x) for x in f[4]], "cq": [int(x) for x in f[5]], "obs": [int(x) for x in f[6]]})
+        elif line.startswith("anomaly"):
+            anomalies.append(line[:400])
+    jobs = []
+    shard = 1500
+    for i in range(0, len(cases), shard):
+        items = ["(%s, %s, %s, Some %s)" % (nlist(c["cp"]), nlist(c["ct"]), nlist(c["cq"]), nlist(c["obs"])) for c in cases[i:i + shard]]
+        body = HDR + "Definition cases : list rcase := [\n%s].\n" % ";\n".join(items)
+        body += "Definition F : list (option N) := %s.\n" % F
+        body += "Eval vm_compute in (failing (check_rand_spec F) cases).\n"
+        jobs.append(("c11_use_%d" % (i // shard), body))
+    res = C.coq_eval_many(jobs)
+    sf, broken = [], []
+    for name, o in sorted(res.items()):
+        base = int(name.rsplit("_", 1)[1]) * shard
+        if isinstance(o, Exception):
+            broken.append({"what": "cases-file-failed", "file": name, "error": str(o)[-600:]})
+            continue
+        ls = C.parse_eval_lists(o)
+        if not ls:
+            broken.append({"what": "no-answer", "file": name})
+            continue
+        sf += [cases[base + k] for k in ls[0]]
+    nontriv = sum(1 for c in cases if any(1 <= a <= 6 for a in c["obs"]))
+    chk.add_eval(len(cases), nontriv)
+    chk.note("use_joining_scripts", {"cases": len(cases), "joined": nontriv, "scripts": sorted({c["script"] for c in cases}), "failing": len(sf), "anomalies": len(anomalies)})
+    return sf, anomalies, broken
+
+
 def mask_cases(chk, binp, n):
     out = rbv(binp, ["masks", "--seed", str(chk.seed), "--n", str(n)])
     cases, raw = [], []
@@ -418,6 +466,17 @@ def run(chk):
                 d["what"] = "public-api-form-differs-from-unicode-rules"
                 d["note"] = "glyphs chosen by rustybuzz::shape on the generated font (each positional feature maps each letter to its own glyph) against the specified forms"
                 fails.append(d)
+        sfu, anu, bru = use_script_cases(chk, binp, 1200 if thorough else 250)
+        dis += bru
+        for a in anu[:3]:
+            fails.append({"what": "public-api-anomaly", "input": a, "note": "panic or unexpected glyph/cluster from rustybuzz::shape on a generated font of a USE joining script"})
+        for c in sfu[:3]:
+            fails.append({"what": "use-script-form-differs-from-unicode-rules", "script": c["script"], "init_and_medi_share_a_lookup": c["shared"],
+                          "pre": hexs(c["pre"]), "text": hexs(c["text"]), "post": hexs(c["post"]),
+                          "joining_types": {"pre": c["cp"], "text": c["ct"], "post": c["cq"]},
+                          "observed_feature_index_per_character": c["obs"],
+                          "note": "index into [isol fina fin2 fin3 medi med2 init], 7 = nominal glyph; generated font per script (harness/src/c11.rs use_font)",
+                          "replay_cmd": "rbv c11 use-scripts --seed <seed> --n <n> | grep '^use %s'" % c["script"]})
         C.log("C11: public API done %.1fs" % (time.time() - chk.t0))
         # ---- random longer
         nr = 10000 if thorough else 3000
